@@ -5,6 +5,7 @@ import (
 	"encoding/xml"
 	"fmt"
 	"os"
+	"slices"
 	"sort"
 	"strconv"
 	"strings"
@@ -235,6 +236,11 @@ func makeComplexType(from *xsd.ComplexType, knownTypes *TypeList, logger *logrus
 	item := &StandardType{
 		baseType: baseType{name: from.Name.Local},
 	}
+	// A recursive type is found by its own children: it is known while they are made; the caller adds the result.
+	knownTypes.Add(item)
+	defer func() {
+		knownTypes.types = slices.DeleteFunc(knownTypes.types, func(t Type) bool { return t == Type(item) })
+	}()
 
 	for _, child := range getAllElements(from) {
 		c := createChildItem(child.Name, child.Type, false, child.Optional, child.Plural)
